@@ -4,6 +4,10 @@ import json, os
 HERE = os.path.dirname(os.path.dirname(os.path.abspath(__file__)))
 
 CLAIMED = {
+ 'C02': ('module-level table reconstruction (folding ast.py), exhaustive finite-domain evaluation of the transfer-default functions, guarded-effect queries for callable roles, recursion-shape rule for pointer canonicalisation',
+         'Decides for every un-annotated API the structural necessary conditions: the C spelling table maps stdint, signed/unsigned spellings and GLib aliases consistently and contains the documented semantic entries (char* utf8, void* gpointer, _Bool gboolean, returned char** array of utf8); pointer canonicalisation peels one level per step; transfer defaults equal the documented ones for every direction x caller-allocates and for every fundamental type x const (exhaustive, 95 valuations); trailing GError** is popped and throws set together; callback, *data and destroy-notify roles; async scope; untyped pointers nullable; the original spelling is kept as c:type.',
+         'Not decided: canonicalisation results on arbitrary spellings and typedef chains, positions (value-level). Trusted: CPython ast; documented defaults encoded as the oracle in gilint/props/c02.py.',
+         '§4 C02'),
  'C01': ('table closure (reST docs, parser vocabulary, call-graph consumption), guarded-effect tables (control dependence of every store and warning) queried for the documented rows, CFG reachability for the (not) override, symbolic writer table for the emission mapping',
          'Decides for every callable the structural necessary conditions: every documented parameter/return annotation is accepted and consumed; each annotation stores the documented model attribute under its validity guard (direction, caller-allocates, nullable/optional/not, skip, attributes, transfer incl. floating->none, array length/fixed-size/zero-terminated, length parameter follows the array direction, scope/closure/destroy, type/element-type); nothing stores nullable after the (not) block; every invalid annotation reaches a warning and no store; the writer emits each attribute under the documented XML key and computes indices only through raising lookups on the same parent; zero-terminated is explicit whenever the reader default would differ.',
          'Not decided: results of type resolution for (type)/(element-type) strings, interaction of passes, anything depending on the concrete C type. Trusted: CPython ast; the oracle rows in gilint/props/c01.py (taken from the property text and giannotations.rst).',
